@@ -51,7 +51,19 @@ def store_field(facts: Facts, target, aliases) -> Optional[str]:
     return None
 
 
-def primitive_effects(facts: Facts, f: Func, node, aliases=None) -> List[Effect]:
+# wide mode (R02.a): every slot of the instance-private state counts, except
+WIDE_EXCLUDED = {
+    "private.params": "lazy creation of the per-instance Parameter copy on first access is not a change of state the property talks about",
+}
+
+
+def _is_effect_field(fld, wide):
+    if fld in EFFECT_FIELDS:
+        return True
+    return bool(wide and fld and fld.startswith("private.") and fld not in WIDE_EXCLUDED)
+
+
+def primitive_effects(facts: Facts, f: Func, node, aliases=None, wide=False) -> List[Effect]:
     """Effects performed directly by the statement/expression at ``node``
     (a CFG Node or an AST statement)."""
     if aliases is None:
@@ -59,7 +71,7 @@ def primitive_effects(facts: Facts, f: Func, node, aliases=None) -> List[Effect]
     out: List[Effect] = []
     for t in stores_in(node):
         fld = store_field(facts, t, aliases)
-        if fld in EFFECT_FIELDS or fld == "self.default":
+        if _is_effect_field(fld, wide) or fld == "self.default":
             a = node.ast if isinstance(node, Node) else node
             kind = "delete" if isinstance(a, ast.Delete) else "store"
             out.append(Effect(kind, fld, node))
@@ -69,7 +81,7 @@ def primitive_effects(facts: Facts, f: Func, node, aliases=None) -> List[Effect]
                 out.append(Effect("call", c.func.attr, node))
             elif c.func.attr in ("pop", "clear", "update", "append", "remove", "setdefault", "extend", "insert", "popitem"):
                 fld = facts.field_of(c.func.value, aliases)
-                if fld in EFFECT_FIELDS:
+                if _is_effect_field(fld, wide):
                     out.append(Effect("mutate", "%s.%s" % (fld, c.func.attr), node))
         elif isinstance(c.func, ast.Name) and c.func.id == "setattr":
             out.append(Effect("call", "setattr", node))
@@ -81,9 +93,10 @@ class EffectSummaries:
     depth) perform one of the effects?  Used so that moving an effect into a
     helper (``_relink``) keeps the rule exact."""
 
-    def __init__(self, facts: Facts, depth: int = 3):
+    def __init__(self, facts: Facts, depth: int = 3, wide: bool = False):
         self.facts = facts
         self.depth = depth
+        self.wide = wide
         self._memo: Dict[Tuple[str, int], List[str]] = {}
 
     def effects_of(self, f: Func, depth: Optional[int] = None) -> List[str]:
@@ -96,7 +109,7 @@ class EffectSummaries:
         aliases = self.facts.local_aliases(f)
         for st in walk_stmts(f.node):
             for part in own_exprs(st):
-                for e in primitive_effects(self.facts, f, part, aliases):
+                for e in primitive_effects(self.facts, f, part, aliases, self.wide):
                     out.append("%s %s" % (e.kind, e.what))
                 if depth > 0:
                     for c in (x for x in walk_no_nested(part) if isinstance(x, ast.Call)):
